@@ -281,6 +281,7 @@ namespace zoo {
    struct Row { const char* name; void (*build)(Ctx&); };
    const std::vector<Row>& rows();
    void build_all(Ctx&);
+   void build_row(Ctx&, const Row&);
    // Implementation classes that no factory returns directly (constants, internals reachable through accessors).
    void register_constants_and_internals(Ctx&);
 
